@@ -435,6 +435,26 @@ func (b *BaseStore) holdsOnlyEntriesStoredUnderTheirAddress(ctx context.Context,
 
 // joinEntriesOneByOne merges into oplog the entries of l that are accepted on
 // their own, keeping at most amount entries when amount is positive.
+// joinUpTo joins a log and then keeps the `amount` most recent entries
+// (everything when amount is not positive). Join cuts the list of the entries
+// it reaches from its heads and panics when asked to keep more than that list
+// holds; the list can be shorter than the number of entries the log holds
+// (a log that was cut before still indexes the entries cut off), so it is
+// measured, after the join, instead of being estimated
+func joinUpTo(oplog ipfslog.Log, l ipfslog.Log, amount int) error {
+	if _, err := oplog.Join(l, -1); err != nil {
+		return err
+	}
+
+	if amount > 0 && oplog.Values().Len() > amount {
+		if _, err := oplog.Join(l, amount); err != nil {
+			return err
+		}
+	}
+
+	return nil
+}
+
 func (b *BaseStore) joinEntriesOneByOne(ctx context.Context, oplog ipfslog.Log, l ipfslog.Log, amount int) {
 	for _, e := range l.GetEntries().Slice() {
 		if _, ok := oplog.Get(e.GetHash()); ok {
@@ -458,12 +478,7 @@ func (b *BaseStore) joinEntriesOneByOne(ctx context.Context, oplog ipfslog.Log, 
 			continue
 		}
 
-		size := -1
-		if amount > 0 && amount <= oplog.Len() {
-			size = amount
-		}
-
-		if _, err := oplog.Join(single, size); err != nil {
+		if err := joinUpTo(oplog, single, amount); err != nil {
 			b.logger.Debug("entry of a cached head refused", zap.Error(err))
 		}
 	}
@@ -694,28 +709,13 @@ func (b *BaseStore) Load(ctx context.Context, amount int) error {
 
 			span.AddEvent("store-head-loaded")
 
-			// Join keeps the `size` most recent entries and cannot be given a
-			// size larger than what the joined log will hold
-			size := amount
-			if size > 0 {
-				total := oplog.Len()
-				for _, e := range l.GetEntries().Slice() {
-					if _, ok := oplog.Get(e.GetHash()); !ok {
-						total++
-					}
-				}
-				if size >= total {
-					size = -1
-				}
-			}
-
 			span.AddEvent("store-heads-joining")
 			if !b.holdsOnlyOwnEntries(l) {
 				inErr = fmt.Errorf("the head leads to entries of another database")
 			} else if !b.holdsOnlyEntriesStoredUnderTheirAddress(ctx, l) {
 				inErr = fmt.Errorf("the head leads to entries that are not stored under their address")
 			} else {
-				_, inErr = oplog.Join(l, size)
+				inErr = joinUpTo(oplog, l, amount)
 			}
 
 			if inErr != nil {
@@ -733,7 +733,7 @@ func (b *BaseStore) Load(ctx context.Context, amount int) error {
 				// entries the store already holds: what lies below them (left
 				// out by an earlier load with a limit, or by a load that was
 				// given up part-way) is merged here
-				if size == -1 {
+				if amount <= 0 || oplog.Values().Len() < amount {
 					b.joinEntriesOneByOne(ctx, oplog, l, amount)
 				}
 			}
